@@ -269,6 +269,13 @@ class Run:
         for f in fails:
             if self.prop in f['props']:
                 self.failures.append({'engine': 'verus', **f})
+        # site anchors that no longer match: their clauses were dropped. If nothing else fails for this property the
+        # run cannot vouch for those sites -> UNDECIDED (a failure elsewhere is still a violation).
+        soft = [l for l in w.soft_lost if self.prop in l['props']]
+        if soft:
+            self.notes.append('site anchors lost (clauses dropped): ' + '; '.join(l['desc'] for l in soft))
+            if not any(f['engine'] == 'verus' for f in self.failures):
+                raise Undecided('site anchors lost: ' + '; '.join(l['desc'] for l in soft))
         if whole:
             # stability cross-check: same crate, different Z3 seed; a disagreement is UNDECIDED, not a violation
             seed2 = (self.seed or 0) + 7
